@@ -27,7 +27,7 @@ def models(tier, seed):
 
 
 def required_tags(tier):
-    return ['states:1', 'states:2', 'inductors>=2', 'energy', 'scheme:other', 'listing_not_alphabetical']
+    return ['states:1', 'states:2', 'inductors>=2', 'energy', 'scheme:other', 'listing_not_alphabetical', 'decade_units']
 
 
 def replay(case, ctx):
@@ -44,13 +44,21 @@ def replay(case, ctx):
         tg.add('inductors>=2')
     Aspec = np.array([[float(rat(x)) for x in row] for row in case['A']])
     n = Aspec.shape[0]
-    variants = case.get('schemes') or [(0,), ((h % (N_SCHEMES - 1)) + 1,)]
-    for (scheme,) in variants:
+    # (scheme, decade units of impedance / voltage / angular frequency): the model must be right for element values over many decades
+    # (kOhm - nF - MHz, mOhm - F, ...), where the entries of A span ten and more decades
+    UNITS = [(6, 0, 0), (-5, 0, 3), (3, 0, 6), (0, 0, -3), (3, 2, 9)]
+    variants = case.get('schemes') or [(0,), ((h % (N_SCHEMES - 1)) + 1,), (((h >> 7) % N_SCHEMES), UNITS[(h >> 3) % len(UNITS)])]
+    for var in variants:
+        scheme = var[0]
+        units = tuple(var[1]) if len(var) > 1 else (0, 0, 0)
+        zu, vu, wu = (10.0 ** x for x in units)
         naming = Naming(scheme)
         if not c10.scheme_is_default_order(scheme):
             tg.add('scheme:other')
-        ctxs = f'scheme={scheme}'
-        built, e = call(build_circuit, comps, naming, 0, (0, 0, 0))
+        if units != (0, 0, 0):
+            tg.add('decade_units')
+        ctxs = f'scheme={scheme} units={units}'
+        built, e = call(build_circuit, comps, naming, 0, units)
         if e is not None:
             r.mismatches.append({'what': 'Circuit(...)', 'got': repr(e), 'want': 'accepted', 'signature': f'exc:construct:{exc_sig(e)}', 'detail': ctxs})
             continue
@@ -62,6 +70,9 @@ def replay(case, ctx):
         c_values = {ids[c['id']]: float(circuit[ids[c['id']]].value['C']) for c in ng if c['kind'] == 'capacitor'}
         l_values = {ids[c['id']]: float(circuit[ids[c['id']]].value['L']) for c in ng if c['kind'] == 'inductance'}
         assert list(c_values) + list(l_values) == state_ids
+        # states in physical units: capacitor voltages scale with vu, inductor currents with vu / zu; time with 1 / wu
+        sv = np.array([1.0] * len(c_values) + [1.0 / zu] * len(l_values))
+        Awant = wu * Aspec * sv[:, None] / sv[None, :] if n else Aspec
         for name, fn in (('nodal_state_space_model', lambda: nodal_state_space_model(transform_circuit(circuit, w=0), c_values=dict(c_values), l_values=dict(l_values)).A),
                          ('state_space_model', lambda: cssm.state_space_model(circuit).A)):
             A, e = call(fn)
@@ -70,18 +81,21 @@ def replay(case, ctx):
                 r.mismatches.append({'what': name, 'got': repr(e), 'want': 'model', 'signature': f'exc:{name}:{exc_sig(e)}', 'detail': ctxs})
                 continue
             A = np.asarray(A, float)
-            sc = float(np.max(np.abs(Aspec))) if n else 1.0
-            if A.shape != Aspec.shape or not all(close(A[i, j], Aspec[i, j], sc, rtol=1e-8, atol_rel=1e-9) for i in range(n) for j in range(n)):
-                r.mismatches.append({'what': f'{name}: state matrix in the published state order {state_ids}', 'got': repr(A.tolist()), 'want': repr(Aspec.tolist()),
+            a0 = float(np.max(np.abs(Aspec))) if n else 1.0
+            scale = wu * a0 * sv[:, None] / sv[None, :] if n else np.ones((0, 0))          # natural magnitude of each entry
+            if A.shape != Aspec.shape or not all(close(A[i, j], Awant[i, j], scale[i, j], rtol=1e-8, atol_rel=1e-9) for i in range(n) for j in range(n)):
+                r.mismatches.append({'what': f'{name}: state matrix in the published state order {state_ids}', 'got': repr(A.tolist()), 'want': repr(Awant.tolist()),
                                      'signature': f'state_matrix:{name}', 'detail': ctxs})
                 continue
-            ev = np.linalg.eigvals(A)
+            An = A * sv[None, :] / sv[:, None] / wu                  # back to the units of the specification
+            ev = np.linalg.eigvals(An)
             if np.max(ev.real) > 1e-9 * (1 + np.max(np.abs(ev))):
                 r.mismatches.append({'what': f'{name}: eigenvalues', 'got': repr(ev), 'want': 'non-positive real parts', 'signature': 'unstable_pole', 'detail': ctxs})
-            # W A + A^T W <= 0 on the library's own matrix
+            # W A + A^T W <= 0 on the library's own matrix (congruence-scaled to the units of the specification: definiteness is invariant)
             W = np.diag(list(c_values.values()) + list(l_values.values()))
             M = W @ A + A.T @ W
-            if np.max(np.linalg.eigvalsh((M + M.T) / 2)) > 1e-9 * (1 + np.max(np.abs(M))):
+            Mn = M * sv[:, None] * sv[None, :] * zu
+            if np.max(np.linalg.eigvalsh((Mn + Mn.T) / 2)) > 1e-9 * (1 + np.max(np.abs(Mn))):
                 r.mismatches.append({'what': f'{name}: W A + A^T W', 'got': repr(M.tolist()), 'want': 'negative semidefinite', 'signature': 'not_passive', 'detail': ctxs})
         # ---- simulated free response: a pulse on every source, then zero
         eig = np.linalg.eigvals(Aspec)
@@ -89,12 +103,12 @@ def replay(case, ctx):
         if lam_min <= 0:
             continue
         npulse, N = 8, 80
-        dt = 0.25 / lam_max
+        dt = 0.25 / lam_max / wu
         t = dt * np.arange(N + 1)
         m = len(case['sources'])
         U = np.zeros((N + 1, m))
         for q in range(m):
-            U[1:npulse, q] = 1.0 + q
+            U[1:npulse, q] = (1.0 + q) * vu          # (a current source's natural unit is vu / zu; any positive pulse will do)
         sol = c12.run_transient(circuit, ids, case['sources'], t, U, r.mismatches, ctxs + ' pulse')
         if sol is None:
             continue
